@@ -70,10 +70,14 @@ FAULT_NAMES = {0: "Accounting.OOk", 1: "Accounting.ORange", 2: "Accounting.OClie
 class Api:
     def __init__(self):
         self.calls, self.faults = [], {}
+        self.latency, self.acked, self.on_first_call = 0.0, set(), None
 
     async def set_power(self, component_id, power):
         from frequenz.client.microgrid import ApiClientError, OperationOutOfRange
         self.calls.append((component_id, power))
+        if self.on_first_call is not None:      # what the caller does while the API round trip is in flight
+            hook, self.on_first_call = self.on_first_call, None
+            hook()
         o = self.faults.get(component_id, 0)
         if o == 1:
             raise OperationOutOfRange(server_url="fake", operation="set_power", grpc_error=_GrpcErr())
@@ -81,6 +85,9 @@ class Api:
             raise ApiClientError(server_url="fake", operation="set_power", description="scripted", retryable=False)
         if o == 4:
             await asyncio.Event().wait()       # never replies: the manager's timeout cancels the task
+        if self.latency:
+            await asyncio.sleep(self.latency)  # the acknowledge takes a while; failures above are reported at once
+        self.acked.add(component_id)
 
 
 class Tracker:
@@ -256,8 +263,16 @@ def run_sequence(case):
             del log[:]
             api.calls.clear()
             api.faults = {int(i): int(c) for i, c in st.get("faults", [])}
+            api.latency = float(D.fr(st.get("latency", 0)))
+            api.acked = set()
             n0 = len(m._results_sender.msgs)
             req = I.Request(power=I.Power.from_watts(X(D.fr(st["power"]))), component_ids=pool, adjust_power=bool(st["adjust"]))
+            if "mutate_to" in st:                # the caller re-uses the Request object for its next request
+                def _mutate(req=req, p2=st["mutate_to"]):
+                    req.power = I.Power.from_watts(X(D.fr(p2)))
+                api.on_first_call = _mutate
+            else:
+                api.on_first_call = None
             o = {"kind": None, "calls": None, "succ": None, "excess": None, "failed_power": None, "order": [], "n_results": 0}
             try:
                 loop.run_until_complete(m.distribute_power(req))
@@ -266,6 +281,8 @@ def run_sequence(case):
                 out.append(o)
                 continue
             msgs = m._results_sender.msgs[n0:]
+            loop.run_until_complete(asyncio.sleep(1.0))     # let whatever is still in flight reach the hardware
+            o["acked"] = sorted(api.acked)
             o["n_results"] = len(msgs)
             o["calls"] = sorted([int(c), D.js(p)] for c, p in api.calls)
             # order in which the manager visited its battery sets: first battery read of each set
@@ -366,8 +383,10 @@ def judge(case, obs):
             out.append(("C02_calls", k, f"request {k}: set_power called for inverters {got}, the request covers {want}"))
             continue
         # reported-as-set under API faults: succeeded = accepted set-points, failed = rejected set-points
-        acc = sum(D.fr(v) for c, v in o["calls"] if faults.get(c, 0) == 0)
-        rej = sum(D.fr(v) for c, v in o["calls"] if faults.get(c, 0) != 0)
+        # accepted = acknowledged by the (fake) hardware, also when the acknowledge arrived after the Result was sent
+        acked = set(o.get("acked", [c for c, _ in o["calls"] if faults.get(c, 0) == 0]))
+        acc = sum(D.fr(v) for c, v in o["calls"] if c in acked)
+        rej = sum(D.fr(v) for c, v in o["calls"] if c not in acked)
         req_p = D.fr(view[2]["power"])
         if abs(D.fr(o["succ"]) - acc) > D.TOL:
             out.append(("C01_reported_succeeded", k, f"request {k} ({req_p}, faults {sorted(faults.items())}): succeeded_power {D.fr(o['succ'])} != sum of the accepted set-points {acc} (calls {o['calls']})"))
@@ -375,7 +394,7 @@ def judge(case, obs):
             out.append(("C01_reported_failed", k, f"request {k} ({req_p}, faults {sorted(faults.items())}): failed_power {failed_p} ({o['kind']}) != sum of the rejected set-points {rej} (calls {o['calls']})"))
         if abs(D.fr(o["succ"]) + failed_p + D.fr(o["excess"]) - req_p) > D.TOL and abs(req_p) > D.ZERO_TOL:
             out.append(("C01_reported_total", k, f"request {k}: succeeded {D.fr(o['succ'])} + failed {failed_p} + excess {D.fr(o['excess'])} != request {req_p}"))
-        if (o["kind"] == "Success") != (not any(faults.get(c, 0) for c, _ in o["calls"])):
+        if (o["kind"] == "Success") != all(c in acked for c, _ in o["calls"]):
             out.append(("C01_reported_kind", k, f"request {k}: result {o['kind']} although the rejected set_power calls are {[c for c, _ in o['calls'] if faults.get(c, 0)]}"))
         sub = {"err": None, "dist": o["calls"], "rem": o["excess"], "distributed": D.js(D.fr(o["succ"]) + failed_p)}
         for cl, gi, text in D.clauses(dc, sub):
@@ -509,6 +528,10 @@ def gen_case(rng, startup=False):
             else:
                 chosen = [i for i in all_invs if rng.random() < 0.5] or [rng.choice(all_invs)]
                 req["faults"] = [[i, 1 if kind == "range_only" else rng.choice([1, 2, 4])] for i in chosen]
+        if rng.random() < 0.5:
+            req["latency"] = [1, 20]          # 50 ms until a set_power call is acknowledged
+        if rng.random() < 0.15:
+            req["mutate_to"] = D.js(-p if p != 0 else F(100))    # the caller mutates the Request while the API round trip is in flight
         steps.append(req)
         # next update: which side gets a fresh sample
         nb, ni = _comp_data(rng, topo)
@@ -575,7 +598,13 @@ def boundary_cases():
                                            {"t": "req", "power": 1400, "adjust": True, "faults": [[18, 2]]},
                                            {"t": "req", "power": -1400, "adjust": True, "faults": [[19, 1]]},
                                            {"t": "req", "power": 600, "adjust": False, "faults": [[8, 4], [18, 1]]},
-                                           {"t": "req", "power": -600, "adjust": True, "faults": [[8, 1], [18, 1], [19, 1]]}]})
+                                           {"t": "req", "power": -600, "adjust": True, "faults": [[8, 1], [18, 1], [19, 1]]},
+                                           # one early failure while the other acknowledges are still in flight
+                                           {"t": "req", "power": 1200, "adjust": True, "faults": [[8, 2]], "latency": [1, 20]},
+                                           {"t": "req", "power": -900, "adjust": True, "faults": [[19, 1]], "latency": [1, 20]},
+                                           # the caller re-uses (mutates) the Request object during the round trip
+                                           {"t": "req", "power": 900, "adjust": True, "latency": [1, 20], "mutate_to": -300},
+                                           {"t": "req", "power": 700, "adjust": True, "faults": [[18, 1]], "mutate_to": 100}]})
     return out
 
 
@@ -678,6 +707,10 @@ class ManagerStream(Stream):
             p = D.fr(st["power"])
             out.append(f"result:{o['kind']}")
             out.append("mode:adjust" if st["adjust"] else "mode:exact")
+            if st.get("latency"):
+                out.append("api:acknowledge_latency" + ("+early_failure" if any(c in (1, 2) for _, c in st.get("faults", [])) else ""))
+            if "mutate_to" in st:
+                out.append("caller:request_object_mutated_in_flight")
             if st.get("faults"):
                 codes = sorted({c for _, c in st["faults"]})
                 out.append("faults:" + "+".join({1: "out_of_range", 2: "client_error", 4: "timeout"}[c] for c in codes))
